@@ -1,6 +1,7 @@
 """C12 - broadcast arithmetic follows NumPy semantics (DESIGN 4/C12)."""
 LEVEL = "model_checking"
-RULE = ("P1: for every shape pair with rows, cols in 1..K (quick K=4: 256 pairs, thorough K=6: 1296 pairs) x 4 operators TLC "
+RULE = ("P4: Apalache proves, for ALL natural shapes (no bound), that the classifier model accepts exactly the NumPy-compatible shape pairs "
+        "(spec/BroadcastCompat.tla); P1: for every shape pair with rows, cols in 1..K (quick K=4: 256 pairs, thorough K=6: 1296 pairs) x 4 operators TLC "
         "checks that the classifier-and-loops model of broadcast.rs (BCode) equals the NumPy rule (BSpec), all ten leaves "
         "covered; P2: every case is emitted with the exact expected matrix (rationals for division) and replayed through "
         "Matrix.Matrix, Matrix.Vector (right operand a single row) and Vector.Matrix in all four ownership forms - value "
@@ -13,6 +14,12 @@ EXHAUSTIVE = True
 
 
 def run(R):
+    import vlib
+    a = vlib.run_apalache("BroadcastCompat", "Inv", R.work)
+    R.cov["stages"].append(dict(stage="P4", module="BroadcastCompat", tool="apalache-mc --length=0", holds=a["ok"], wall_s=round(a["wall_s"], 1),
+                                statement="for ALL natural shapes the classifier yields a value iff the shapes are NumPy-compatible"))
+    if not a["ok"]:
+        raise vlib.ToolError("Apalache lemma BroadcastCompat!Inv failed:\n" + a["tail"])
     cases, r = R.mc("MC_Broadcast", "MC_Broadcast_%s.cfg" % R.tier, workers=8)
     R.replay(cases)
     n, dim = (200, 16) if R.tier == "quick" else (600, 40)
